@@ -86,8 +86,10 @@ type c07atKey struct {
 type c07Engine struct {
 	p        *Prog
 	sc       *c07Scope
-	callers  map[*ssa.Function][]c07CallSite // module-wide static call sites
-	escaped  map[*ssa.Function]bool          // function value used other than as a static callee
+	fv       *c07FV
+	callers  map[*ssa.Function][]c07CallSite // module-wide call sites: static, resolved dynamic, module-interface invokes
+	escaped  map[*ssa.Function]bool          // the function's value is taken somewhere
+	tblMemo  map[ssa.Value]c07Table
 	flows    map[c07flowKey]map[*ssa.BasicBlock]c07B
 	busy     map[c07atKey]bool
 	intrBusy map[c07flowKey]bool
@@ -96,63 +98,47 @@ type c07Engine struct {
 	depth    int
 }
 
-func newC07Engine(p *Prog, sc *c07Scope) *c07Engine {
-	e := &c07Engine{p: p, sc: sc, callers: map[*ssa.Function][]c07CallSite{}, escaped: map[*ssa.Function]bool{},
+func newC07Engine(p *Prog, sc *c07Scope, fv *c07FV) *c07Engine {
+	e := &c07Engine{p: p, sc: sc, fv: fv, callers: map[*ssa.Function][]c07CallSite{}, escaped: map[*ssa.Function]bool{},
 		flows: map[c07flowKey]map[*ssa.BasicBlock]c07B{}, busy: map[c07atKey]bool{}, intrBusy: map[c07flowKey]bool{},
-		glob: map[*ssa.Global]c07B{}, retMemo: map[string]c07B{}}
+		glob: map[*ssa.Global]c07B{}, retMemo: map[string]c07B{}, tblMemo: map[ssa.Value]c07Table{}}
 	for _, fn := range p.Funcs {
-		allInstrs(fn, func(in ssa.Instruction) {
-			var calleeVal ssa.Value
-			if ci, ok := in.(ssa.CallInstruction); ok {
-				if g := staticCallee(ci); g != nil && p.InModule(g) {
-					e.callers[g] = append(e.callers[g], c07CallSite{fn, ci})
-				}
-				calleeVal = ci.Common().Value
-			}
-			_, isMC := in.(*ssa.MakeClosure)
-			for _, op := range in.Operands(nil) {
-				if op == nil || *op == nil || *op == calleeVal {
-					continue
-				}
-				switch v := (*op).(type) {
-				case *ssa.Function:
-					if !isMC {
-						e.escaped[origin(v)] = true
-					}
-				case *ssa.MakeClosure:
-					if f, ok := v.Fn.(*ssa.Function); ok {
-						e.escaped[origin(f)] = true
-					}
-				}
-			}
-		})
+		fn = origin(fn)
+		e.callers[fn] = fv.Sites(fn)
+		e.escaped[fn] = len(fv.created[fn]) > 0
 	}
 	return e
 }
 
-// inputFunc: parameters of fn may be chosen from outside the module.
+// inputFunc: parameters of fn may be chosen from outside the module: entry
+// points, exported functions and methods with exported names, and functions
+// whose value reaches code the analysis does not see (third-party callbacks,
+// returned closures, exported fields). A function whose value only reaches
+// tracked cells that are only called (dispatch tables, func-typed unexported
+// fields, callback parameters of module functions) is NOT an input function:
+// all its call sites are known.
 func (e *c07Engine) inputFunc(fn *ssa.Function) bool {
-	if fn.Parent() != nil {
-		// closure: when its value escapes, its parameters are chosen by whoever
-		// calls the func value; a closure only called in place is like a private function
-		return e.escaped[fn] || len(e.callers[fn]) == 0
-	}
-	if isExportedFunc(fn) {
+	fn = origin(fn)
+	if e.sc != nil && e.sc.Entry[fn] {
 		return true
 	}
-	if e.escaped[fn] {
-		return true
-	}
-	if e.sc != nil && (e.sc.Entry[fn] || e.sc.ValueCreated[fn]) {
-		return true
-	}
-	// methods of unexported types can still be reached through interfaces
-	if fn.Signature.Recv() != nil {
-		if obj := fn.Object(); obj != nil && obj.Exported() {
-			return true
+	return e.fv.Status(fn) == c07StInput
+}
+
+// calleeOf: the module function a call enters when there is exactly one
+// candidate (static call, or a function value / module interface with a single
+// visible target).
+func (e *c07Engine) calleeOf(c ssa.CallInstruction) *ssa.Function {
+	if g := staticCallee(c); g != nil {
+		if ts := e.fv.through(g, 0); len(ts) == 1 && ts[0].Shift == 0 {
+			return ts[0].Fn
 		}
+		return g
 	}
-	return false
+	if ts := e.fv.DynTargets[c]; len(ts) == 1 {
+		return ts[0].Fn
+	}
+	return nil
 }
 
 func c07ConstInt(v ssa.Value) (int64, bool) {
@@ -295,7 +281,7 @@ func (e *c07Engine) condFact(k c07flowKey, cond ssa.Value, branch bool, at *ssa.
 			x = c07LoadedFrom(x)
 			if ex2, ok := x.(*ssa.Extract); ok && isNilConst(y) && ex2.Tuple == ex.Tuple && ex2.Index != ex.Index {
 				if call, ok := ex.Tuple.(*ssa.Call); ok {
-					if fn := staticCallee(call); fn != nil && e.p.InModule(fn) {
+					if fn := e.calleeOf(call); fn != nil && e.p.InModule(fn) {
 						b := e.returnLen(fn, ex.Index, ex2.Index)
 						if b.Lo > 0 {
 							return b, true
@@ -374,6 +360,12 @@ func (e *c07Engine) condFact(k c07flowKey, cond ssa.Value, branch bool, at *ssa.
 			}
 		}
 		return c07B{}, false
+	}
+	// membership in a literal table (dispatch map, list of supported names)
+	if k.kind == c07Len {
+		if t, ok := e.memberFact(cond, branch, k.v); ok {
+			return c07B{Lo: t.MinLen, Exact: true, Why: "one of the keys of " + t.Name}, true
+		}
 	}
 	// boolean calls: strings.HasPrefix(s, "c") etc.
 	if call, val, ok := boolCallCond(cond, branch); ok && val && k.kind == c07Len {
@@ -696,12 +688,152 @@ func (e *c07Engine) intrinsicLen(v ssa.Value) c07B {
 			if g, ok := x.X.(*ssa.Global); ok {
 				return e.globalLen(g)
 			}
+			// a local cell (captured variable, field of a local struct) written once
+			if val, st := c07CellValue(x); val != nil {
+				b := e.lenAt(val, st.Block())
+				return b
+			}
 		}
 		return unknown
 	case *ssa.Extract:
 		return unknown // only the err==nil edge fact can say something (see extractFact)
 	}
 	return unknown
+}
+
+// c07AddrPath: addr is a local cell: an Alloc, a field path into an Alloc, or a
+// captured variable (FreeVar bound to such a cell of the enclosing function).
+func c07AddrPath(addr ssa.Value, depth int) (*ssa.Alloc, string, bool) {
+	if depth > 4 {
+		return nil, "", false
+	}
+	switch a := addr.(type) {
+	case *ssa.Alloc:
+		return a, "", true
+	case *ssa.FieldAddr:
+		r, p, ok := c07AddrPath(a.X, depth+1)
+		if !ok {
+			return nil, "", false
+		}
+		return r, p + "." + string(rune('a'+a.Field)), true
+	case *ssa.FreeVar:
+		if b := resolveFreeVar(a); b != nil {
+			return c07AddrPath(b, depth+1)
+		}
+	}
+	return nil, "", false
+}
+
+// c07CellUses collects every store to / other use of the cell rooted at alloc
+// (through field addresses and closure captures). ok=false when the address
+// leaks (passed to a call, stored, indexed...).
+func c07CellUses(a *ssa.Alloc) (stores []*ssa.Store, ok bool) {
+	ok = true
+	var walk func(addr ssa.Value, depth int)
+	walk = func(addr ssa.Value, depth int) {
+		if depth > 5 {
+			ok = false
+			return
+		}
+		for _, ref := range refs(addr) {
+			switch x := ref.(type) {
+			case *ssa.UnOp, *ssa.DebugRef:
+			case *ssa.Store:
+				if x.Addr == addr {
+					stores = append(stores, x)
+				} else {
+					ok = false
+				}
+			case *ssa.FieldAddr:
+				walk(x, depth+1)
+			case *ssa.MakeClosure:
+				fn, _ := x.Fn.(*ssa.Function)
+				for i, b := range x.Bindings {
+					if b == addr && fn != nil && i < len(fn.FreeVars) {
+						walk(fn.FreeVars[i], depth+1)
+					}
+				}
+			default:
+				ok = false
+			}
+		}
+	}
+	walk(a, 0)
+	return
+}
+
+// c07CellValue: load reads a local cell that is written exactly once (same
+// path), by a store that precedes the load; returns the stored value.
+func c07CellValue(load *ssa.UnOp) (ssa.Value, *ssa.Store) {
+	root, path, ok := c07AddrPath(load.X, 0)
+	if !ok {
+		return nil, nil
+	}
+	stores, ok := c07CellUses(root)
+	if !ok {
+		return nil, nil
+	}
+	var hit *ssa.Store
+	for _, st := range stores {
+		_, sp, ok := c07AddrPath(st.Addr, 0)
+		if !ok {
+			return nil, nil
+		}
+		// a store to a prefix (whole struct) or to the same path touches the cell
+		if sp == path {
+			if hit != nil {
+				return nil, nil
+			}
+			hit = st
+		} else if strings.HasPrefix(path, sp) || strings.HasPrefix(sp, path) {
+			return nil, nil
+		}
+	}
+	if hit == nil {
+		return nil, nil
+	}
+	if hit.Parent() == load.Parent() {
+		if hit.Block() == load.Block() {
+			if instrIndex(hit) > instrIndex(load) {
+				return nil, nil
+			}
+		} else if !hit.Block().Dominates(load.Block()) {
+			return nil, nil
+		}
+	} else {
+		// load in a closure: the store must be in an enclosing function and
+		// precede the creation of the closure
+		enc := false
+		for f := load.Parent().Parent(); f != nil; f = f.Parent() {
+			if f == hit.Parent() {
+				enc = true
+			}
+		}
+		if !enc {
+			return nil, nil
+		}
+		okOrder := false
+		for f := load.Parent(); f != nil && f.Parent() != nil; f = f.Parent() {
+			if f.Parent() != hit.Parent() {
+				continue
+			}
+			for _, b := range hit.Parent().Blocks {
+				for _, in := range b.Instrs {
+					if mc, isMC := in.(*ssa.MakeClosure); isMC && mc.Fn == ssa.Value(f) {
+						if (hit.Block() == b && instrIndex(hit) < instrIndex(mc)) || (hit.Block() != b && hit.Block().Dominates(b)) {
+							okOrder = true
+						} else {
+							return nil, nil
+						}
+					}
+				}
+			}
+		}
+		if !okOrder {
+			return nil, nil
+		}
+	}
+	return hit.Val, hit
 }
 
 // lenAtEnd: bound on len(v) at the end of block pred when control goes to succ.
@@ -804,6 +936,11 @@ func (e *c07Engine) callLen(c *ssa.Call) c07B {
 		}
 		return unknown
 	}
+	// in-module callee (static, or the single visible target of a function
+	// value / module interface) with a single result: minimum over its returns
+	if fn := e.calleeOf(c); fn != nil && e.p.InModule(fn) && fn.Signature.Results().Len() == 1 {
+		return e.returnLen(fn, 0, -1)
+	}
 	obj := calleeObj(c)
 	if obj == nil || obj.Pkg() == nil {
 		return unknown
@@ -829,7 +966,7 @@ func (e *c07Engine) callLen(c *ssa.Call) c07B {
 		}
 	}
 	// in-module callee with a single result: minimum over its returns
-	if fn := staticCallee(c); fn != nil && e.p.InModule(fn) && fn.Signature.Results().Len() == 1 {
+	if fn := e.calleeOf(c); fn != nil && e.p.InModule(fn) && fn.Signature.Results().Len() == 1 {
 		return e.returnLen(fn, 0, -1)
 	}
 	return unknown
@@ -970,22 +1107,29 @@ func (e *c07Engine) paramBound(kind c07subjKind, par *ssa.Parameter) c07B {
 	}
 	acc := c07B{Lo: c07PosInf, Exact: true}
 	for _, cs := range sites {
-		args := cs.Instr.Common().Args
-		if idx >= len(args) {
+		arg := cs.Arg(idx)
+		if arg == nil {
 			free.Exact = false
+			free.Why = "argument not visible at a call site"
 			return free
 		}
 		var b c07B
 		blk := cs.Instr.Block()
 		if kind == c07Len {
-			b = e.lenAtInstr(args[idx], cs.Instr)
+			b = e.lenAtInstr(arg, cs.Instr)
 		} else {
-			b = e.intAt(args[idx], blk)
+			b = e.intAt(arg, blk)
 		}
 		if b.Exact {
-			if og := e.opaqueGuards(cs.Caller, blk, c07SameLen(args[idx]), []c07flowKey{{kind, args[idx]}, {kind, c07SameLen(args[idx])}}); len(og) > 0 {
+			if og := e.opaqueGuards(cs.Caller, blk, c07SameLen(arg), []c07flowKey{{kind, arg}, {kind, c07SameLen(arg)}}); len(og) > 0 {
 				b.Exact = false
 			}
+		}
+		// table dispatch: the argument that selected the target is correlated
+		// with the target; the bound over all keys is sound as a lower bound but
+		// not attainable for each target
+		if cs.Multi && cs.Key != nil && c07SameLen(cs.Key) == c07SameLen(arg) {
+			b.Exact = false
 		}
 		b.Why = "at the call in " + FuncName(e.p, cs.Caller) + ": " + b.Why
 		acc = c07min(acc, b)
@@ -1038,7 +1182,25 @@ func (e *c07Engine) intrinsicInt0(v ssa.Value) c07B {
 			if bn == "cap" || bn == "copy" {
 				return c07B{Lo: 0, Why: bn}
 			}
-			return unknown
+			// min(a, b, ...) >= the smallest lower bound; max(a, b, ...) >= the largest
+			acc := c07B{Lo: c07PosInf, Exact: true}
+			if bn == "max" {
+				acc = c07B{Lo: c07NegInf}
+			}
+			for _, a := range x.Call.Args {
+				b := e.intAt(a, x.Block())
+				if bn == "min" {
+					acc = c07min(acc, b)
+				} else if b.Lo > acc.Lo {
+					acc = b
+				}
+			}
+			acc.Exact = false
+			acc.Why = bn
+			if acc.Lo >= c07PosInf {
+				return unknown
+			}
+			return acc
 		}
 		if obj := calleeObj(x); obj != nil && obj.Pkg() != nil {
 			key := obj.Pkg().Path() + "." + obj.Name()
@@ -1131,6 +1293,12 @@ func (e *c07Engine) intrinsicInt0(v ssa.Value) c07B {
 			return unknown
 		}
 		return acc
+	case *ssa.UnOp:
+		if x.Op == token.MUL {
+			if val, st := c07CellValue(x); val != nil {
+				return e.intAt(val, st.Block())
+			}
+		}
 	case *ssa.Convert:
 		if c07isInteger(x.X.Type()) && c07isInteger(x.Type()) {
 			// widening/narrowing may change the value: only keep unsigned->int of small types
